@@ -40,6 +40,7 @@ def evaluate(chk, graphs, variants, prop):
             case = dict(cfg=cfg, variant=vn, node_phase=G["node_phase"], conn_phase=G["conn_phase"])
             checker = ac.check_c03 if prop == "C03" else ac.check_c04
             vs = checker(cfg, G["node_phase"], G["conn_phase"], ep["record"])
+            if prop == "C04": vs = vs + ac.check_sched_terms(cfg, G["node_phase"], G["conn_phase"], ep["record"])
             for sig, det in vs[:3]:
                 chk.violation(sig, det, dict(case, record=ep["record"] if len(str(ep["record"])) < 20000 else "large"))
             for mi, m in enumerate(G["models"]):
